@@ -319,6 +319,22 @@ func (c *Ctx) inLoop(l *Loop, b *ssa.BasicBlock) bool {
 	fn := b.Parent()
 	for i := 0; i < 6 && fn != nil; i++ {
 		site := c.inlineSite(fn)
+		if site == nil && c.isNew(fn) {
+			// a helper shared with other functions: the calls made from the loop's own function decide
+			lf := rootFn(l.Header.Parent())
+			sites, asV := c.callersOf(fn)
+			n, in := 0, 0
+			for _, s := range sites {
+				if rootFn(s.Fn) != lf && !c.actsFor(rootFn(s.Fn), lf) {
+					continue
+				}
+				n++
+				if c.inLoop(l, s.Call.Block()) {
+					in++
+				}
+			}
+			return len(asV) == 0 && n > 0 && n == in
+		}
 		if site == nil || site.Block() == nil {
 			return false
 		}
@@ -407,6 +423,23 @@ func (c *Ctx) actsFor(fn, anchor *ssa.Function) bool {
 		}
 	}
 	return hit
+}
+
+// actsAlsoFor: fn is anchor, or a new helper that anchor (possibly among other known functions) calls.
+func (c *Ctx) actsAlsoFor(fn, anchor *ssa.Function) bool {
+	if fn == anchor || c.actsFor(fn, anchor) {
+		return true
+	}
+	if !c.isNew(fn) {
+		return false
+	}
+	an := c.fname(anchor)
+	for _, o := range c.ownerNames(fn) {
+		if o == an {
+			return true
+		}
+	}
+	return false
 }
 
 // rootFn: the named function a closure (of any depth) is written in.
